@@ -602,6 +602,52 @@ pub fn c20_case(fam: &str, idx: usize, seed: u64) -> Option<Case> {
             let desc = format!("{} size={} [cancel] user cancel at the sender after emission #{} of {} then suspend/resume and abandon; scripts={:?}", k.describe(), size, at, nseg + 2, sc.scripts.iter().map(|s| format!("{:?}+{}ms:{:?}", s.trig, s.delay_ms, s.act)).collect::<Vec<_>>());
             Some(Case::from(sc, &k, desc, false))
         }
+        "overlap" => {
+            // a scripted (foreign) sender whose file-data PDUs are not aligned to any segment grid: they overlap,
+            // repeat, start inside held data and span several held ranges; a keep-alive is solicited after each
+            let mut k = Knobs::base();
+            k.seg = 64;
+            k.crc = rng.bool();
+            let size = 40 + rng.usize(400);
+            let cl = rng.below(5);
+            let c = content(&mut rng, size, cl, 16, 0xC20);
+            let mut sc = two_party(&case, rng.next_u64(), &k, c.clone());
+            sc.entities[0].scripted = true;
+            sc.latency_ms = 1;
+            sc.paced = true;
+            let h = crate::p_peer::ScriptPlayer::header(1, 2, k.crc);
+            let mk = |pl: PDUPayload| crate::p_peer::mk_pdu(&h, Direction::ToReceiver, pl);
+            let mut items: Vec<(u64, PDU)> = vec![];
+            let mut t = 0u64;
+            items.push((t, mk(PDUPayload::Directive(Operations::Metadata(MetadataPDU { closure_requested: false, checksum_type: k.checksum, file_size: size as u64, source_filename: "src0.bin".into(), destination_filename: "dst0.bin".into(), options: vec![] })))));
+            let n = 3 + rng.usize(12);
+            let mut shapes = vec![];
+            for j in 0..n {
+                // islands first, then bridges that span several of them
+                let (a, l) = if j < n / 2 {
+                    let a = rng.usize(size);
+                    (a, 1 + rng.usize(24))
+                } else {
+                    let a = rng.usize(size);
+                    (a, 1 + rng.usize(size / 2 + 1))
+                };
+                let l = l.min(size - a).max(1).min(size - a);
+                if l == 0 {
+                    continue;
+                }
+                t += 3;
+                items.push((t, mk(PDUPayload::FileData(FileDataPDU::Unsegmented(UnsegmentedFileData { offset: a as u64, file_data: c[a..a + l].to_vec() })))));
+                t += 3;
+                items.push((t, mk(PDUPayload::Directive(Operations::Prompt(PromptPDU { nak_or_keep_alive: NakOrKeepAlive::KeepAlive })))));
+                shapes.push((a, a + l));
+            }
+            sc.peers.push((0, Box::new(crate::p_peer::ScriptPlayer { items, header: h.clone() })));
+            sc.observe_ms = 60_000;
+            let desc = format!("{} size={} [overlap] scripted sender delivers {:?} with a keep-alive prompt after each", k.describe(), size, shapes);
+            let mut cs = Case::from(sc, &k, desc, false);
+            cs.info.fixed_id = Some(cfdp_core::transaction::TransactionID(VariableID::from(1u16), VariableID::from(7u16)));
+            Some(cs)
+        }
         "prompt" | "susp" | "fault" => {
             let mut k = rand_knobs(&mut rng, true);
             k.seg = *rng.pick(&[16u16, 32, 64, 100]);
@@ -663,7 +709,7 @@ pub fn judge_c20(info: &Info, log: &RunLog, rep: &mut Report) {
     let d = Dig::new(log);
     count_observed(rep, log);
     let t = &info.transfers[0];
-    let id = match d.id(0) {
+    let id = match d.id(0).or(info.fixed_id) {
         Some(i) => i,
         None => return,
     };
@@ -807,7 +853,7 @@ pub fn run_c20(tier: &str, seed: u64, replay: Option<&str>) -> (Meta, Report) {
     let meta = Meta {
         property: "C20",
         level: "exploration",
-        rule: "seeded scenarios in three families, all paced, acknowledged mode, random knobs / sizes around segment boundaries / up to 2 random faults (loss, duplication, delay => retransmissions and duplicates): prompt = 1-4 Prompt(KeepAlive) requests at random emission/arrival indices; susp = Suspend+Resume at a random index at either entity (Resumed indication carries progress) plus optional prompt; fault = link cut at a random index with small limits and random fault handlers (Fault / Abandon indications carry progress); cancel = user cancel at the sender in the middle of the first pass with the reverse link dark, optionally followed by suspend/resume (Resumed and Abandon figures of a sender that has not transmitted the whole file). distinct_nontrivial = distinct (config, size, event-order) signatures among runs in which at least one progress figure was reported and checked.".into(),
+        rule: "seeded scenarios in three families, all paced, acknowledged mode, random knobs / sizes around segment boundaries / up to 2 random faults (loss, duplication, delay => retransmissions and duplicates): prompt = 1-4 Prompt(KeepAlive) requests at random emission/arrival indices; susp = Suspend+Resume at a random index at either entity (Resumed indication carries progress) plus optional prompt; fault = link cut at a random index with small limits and random fault handlers (Fault / Abandon indications carry progress); cancel = user cancel at the sender in the middle of the first pass with the reverse link dark, optionally followed by suspend/resume (Resumed and Abandon figures of a sender that has not transmitted the whole file); overlap = a scripted foreign sender whose file-data PDUs are not aligned to any grid (islands, then bridges spanning several held ranges, repeats) with a keep-alive solicited after each. distinct_nontrivial = distinct (config, size, event-order) signatures among runs in which at least one progress figure was reported and checked.".into(),
         exhaustive: false,
         assumptions: vec!["receiver figure must equal the number of distinct file bytes delivered at one of the points of the same virtual instant; sender figure must be a tile boundary between the highest offset handed to the link at earlier instants and the highest offset logged before the indication plus two tiles already read".into()],
         require: vec![("c20_receiver_figures:KeepAlive".into(), 300), ("c20_receiver_figures:Fault".into(), 100), ("c20_receiver_figures:Resumed".into(), 100), ("c20_sender_figures:Fault".into(), 100), ("c20_sender_figures:Resumed".into(), 100), ("c20_sender_figures:Abandon".into(), 100)],
@@ -819,7 +865,7 @@ pub fn run_c20(tier: &str, seed: u64, replay: Option<&str>) -> (Meta, Report) {
     }
     let n = if thorough { 400_000 } else { 3_000 };
     let mut rep = Report::new();
-    for fam in ["prompt", "susp", "fault", "cancel"] {
+    for fam in ["prompt", "susp", "fault", "cancel", "overlap"] {
         rep.merge(run_cases(n, "c20", move |i| c20_case(fam, i, seed), judge_c20));
         rep.add(&format!("cases:{}", fam), n as u64);
     }
